@@ -1,4 +1,5 @@
 import TaskctlVerif.Proofs.Imports
+import TaskctlVerif.Model.GlobalCfg
 /-!
 # C17 — imports load every reachable file once; cycles terminate; broken imports fail
 
@@ -191,3 +192,73 @@ example : Closed exFS 4 := by
 example : loadRoot { exFS with status := fun f => if f = 2 then .unparsable else .ok } 4 0 = .err := by decide
 
 end Imports
+
+/-! ## The global configuration next to the project's (`Model/GlobalCfg.lean`) -/
+namespace GlobalCfg
+
+theorem mem_keys_mergeKeep {α} (dst src : Sect α) (k : String) :
+    k ∈ keys (mergeKeep dst src) ↔ k ∈ keys dst ∨ k ∈ keys src := by
+  unfold mergeKeep keys
+  simp only [List.map_append, List.mem_append, List.mem_map, List.mem_filter, Bool.not_eq_true',
+    List.contains_eq_mem, decide_eq_false_iff_not]
+  constructor
+  · rintro (h | ⟨kv, ⟨h1, _⟩, h3⟩)
+    · exact .inl h
+    · exact .inr ⟨kv, h1, h3⟩
+  · rintro (h | ⟨kv, h1, h3⟩)
+    · exact .inl h
+    · by_cases hk : k ∈ List.map (fun x => x.1) dst
+      · exact .inl (by simpa using hk)
+      · exact .inr ⟨kv, ⟨h1, by rw [h3]; simpa using hk⟩, h3⟩
+
+theorem mem_keys_mergeOver {α} (dst src : Sect α) (k : String) :
+    k ∈ keys (mergeOver dst src) ↔ k ∈ keys dst ∨ k ∈ keys src := by
+  unfold mergeOver keys
+  simp only [List.map_append, List.mem_append, List.mem_map, List.mem_filter, Bool.not_eq_true',
+    List.contains_eq_mem, decide_eq_false_iff_not]
+  constructor
+  · rintro (⟨kv, ⟨h1, _⟩, h3⟩ | h)
+    · exact .inl ⟨kv, h1, h3⟩
+    · exact .inr h
+  · rintro (⟨kv, h1, h3⟩ | h)
+    · by_cases hk : k ∈ List.map (fun x => x.1) src
+      · exact .inr (by simpa using hk)
+      · exact .inl ⟨kv, ⟨h1, by rw [h3]; simpa using hk⟩, h3⟩
+    · exact .inr h
+
+/-- **every definition of the global file and of the project file is available**: in each section
+the names a project sees are exactly those of the global configuration together with its own - for
+every split of the definitions between the two files (conflicting names included) -/
+theorem C17_global_union {α} (g p : Cfg α) (k : String) :
+    (k ∈ keys (load g p).tasks ↔ k ∈ keys g.tasks ∨ k ∈ keys p.tasks) ∧
+    (k ∈ keys (load g p).contexts ↔ k ∈ keys g.contexts ∨ k ∈ keys p.contexts) ∧
+    (k ∈ keys (load g p).variables ↔ k ∈ keys g.variables ∨ k ∈ keys p.variables) := by
+  simp only [load, merge, empty, mem_keys_mergeKeep, mem_keys_mergeOver]
+  simp [keys]
+
+/-- a definition is the one its file gives when the other file does not define the name (what
+`mergo` makes of two definitions with the same name - it fills the empty fields of the first from the
+second - is not modelled: the property is about non-conflicting definitions) -/
+theorem C17_global_value {α} (g p : Cfg α) (kv : String × α) :
+    (kv ∈ g.tasks → kv.1 ∉ keys p.tasks → kv ∈ (load g p).tasks) ∧
+    (kv ∈ p.tasks → kv.1 ∉ keys g.tasks → kv ∈ (load g p).tasks) ∧
+    (kv ∈ p.variables → kv.1 ∉ keys g.variables → kv ∈ (load g p).variables) ∧
+    (kv ∈ g.variables → kv.1 ∉ keys p.variables → kv ∈ (load g p).variables) := by
+  simp only [load, merge, empty, mergeKeep, mergeOver, keys]
+  refine ⟨fun h _ => ?_, fun h hn => ?_, fun h _ => ?_, fun h hn => ?_⟩
+  · simp [h]
+  · simp only [List.nil_append, List.mem_append, List.mem_filter]
+    right
+    refine ⟨h, ?_⟩
+    simpa using hn
+  · simp [h]
+  · simp only [List.nil_append, List.mem_append, List.mem_filter]
+    left
+    refine ⟨by simpa using h, ?_⟩
+    simpa using hn
+
+example : keys (load (α := Nat) { tasks := [("a", 1)], contexts := [], variables := [("v", 1)] }
+    { tasks := [("b", 2), ("a", 3)], contexts := [("c", 4)], variables := [("v", 5), ("w", 6)] }).tasks = ["a", "b"] := by decide
+
+end GlobalCfg
+
